@@ -21,6 +21,8 @@ Line-protocol driver for C05 (op grammar: harness/hx-c05/src/bin/c05.rs).
         | 'I' view (InertElement) | 'K' key* ']' | 'k' key* ']' (keyed lists) | 'Z' view | 'z' (Result)
         | '#' digits ';' (u32) | 'a' hex ';' (Arc<str>) | 'c' hex ';' (Cow<str>) | '3' i view (EitherOf3)
         | 'Y' view* ')' ([AnyView; N]) | 'W' view (OwnedView) | 'F' view (closure)
+        | 'B' view (<ErrorBoundary>) | 'D' view (<Suspense>) | 'G' view (<Transition>) | 'H' ('0'|'1') view (<Show when>)
+        | 'M' key* ']' (<For>): the leptos wrapper components; fallbacks `"ERR"` / `()`
         | 'J' kind ('e'|'t') key* ']' (keyed list fed by an iterator of kind 0..8: Vec, array, range-map, filter, from_fn,
           flat_map, chain, once-chain, Option; item `<b>{key}</b>` / `{key}`)
         | 'X' fid ';' view (Suspend on future fid) | 'Q' (fid '.' key ';')* ']' (keyed, items `<b>{Suspend(key)}</b>`)
@@ -137,6 +139,17 @@ partial def parseSuspKeys (cs : List Char) (acc : List (Nat × String)) : Option
     let k ← stringOfHexChars hx
     parseSuspKeys r ((f, k) :: acc)
 
+/-- a `Result::Err` (decoded as `.any (.opt .unit) .onone`) somewhere in the view -/
+partial def hasErr : View → Bool
+  | .any (.opt .unit) .onone => true
+  | .elem _ _ c => hasErr c
+  | .tuple vs => vs.any hasErr
+  | .osome v => hasErr v
+  | .either _ _ v => hasErr v
+  | .vec vs => vs.any hasErr
+  | .any _ v => hasErr v
+  | _ => false
+
 mutual
 partial def parseView (sd : Nat) (cs : List Char) : Option (View × List Char) :=
   match cs with
@@ -210,6 +223,29 @@ partial def parseView (sd : Nat) (cs : List Char) : Option (View × List Char) :
     let (v, r) ← parseView sd r
     -- `rebuild` of a closure always builds the new effect and replaces the old one: two different tags
     pure (.any (.either (if sd = 0 then [] else [.unit])) (wrap v), r)
+  -- the leptos wrapper components: a rebuild always replaces them (different tags on the two sides)
+  | 'B' :: r => do
+    let (v, r) ← parseView sd r
+    -- Ok children only
+    if hasErr v then none
+    pure (.any (.elem "#eb" [] (.arr sd .unit)) (wrap v), r)
+  | 'D' :: r => do
+    let (v, r) ← parseView sd r
+    if !(fidsOf v).isEmpty || boundaries v != 0 then none
+    pure (.any (boundaryTy sd) (wrap v), r)
+  | 'G' :: r => do
+    let (v, r) ← parseView sd r
+    if !(fidsOf v).isEmpty || boundaries v != 0 then none
+    pure (.any (boundaryTy (sd + 2)) (wrap v), r)
+  | 'H' :: w :: r => do
+    if w != '0' && w != '1' then none
+    let (v, r) ← parseView sd r
+    pure (.any (.elem "#show" [] (.arr sd .unit))
+      (if w == '1' then .either 2 0 (wrap v) else .either 2 1 (wrap .unit)), r)
+  | 'M' :: r => do
+    let (ks, r) ← parseKeys r []
+    pure (.any (.elem "#for" [] (.arr sd .unit))
+      (.any (.vec (.elem "b" [] .text)) (.vec (ks.map fun k => View.elem "b" [] (.tuple [.text k])))), r)
   | 'J' :: kd :: it :: r => do
     -- a keyed list fed by an iterator of kind `kd` (Vec, array, range-map, filter, from_fn, flat_map, chain, once, Option):
     -- the same view whatever the size hint; each kind is its own Rust type
@@ -231,8 +267,8 @@ partial def parseView (sd : Nat) (cs : List Char) : Option (View × List Char) :
   | 'X' :: r => do
     let (f, r) ← natField r
     let (v, r) ← parseView sd r
-    -- at most one `Suspend` level inside the value of a `Suspend`
-    if f > 15 || suspDepth v > 1 then none
+    -- at most one `Suspend` level inside the value of a `Suspend`, no `<Suspense>` boundary
+    if f > 15 || suspDepth v > 1 || boundaries v != 0 then none
     -- `Suspend<AnyView>`: see Model/Hydrate, section "Suspend and the streamed forms"
     pure (.any (suspTy f) (.osome (wrap v)), r)
   | 'Q' :: r => do
@@ -325,6 +361,8 @@ def hydTail (head : String) (htmlS : Hydrate.Str) (a b : View) (cls? : Option St
         (!own || (stateBeq o.state (adopt a .firstChild f).1 && bound d o.state &&
           (hasRawKids a || decide (ts = domOf a)) &&
           (hasRawKids a || treesBeq ((serializeKids dh root).getD []) (domA a .firstChild))))
+      -- a `<Suspense>` boundary keeps its (unshown) fallback `()` alive: one detached node each
+      let created := o.created + boundaries a
       let good := o.created == 0 && d2.errs.isEmpty && treesBeq (stripL after) (stripL csr) && specOK
       let cls :=
         if good then "ok"
@@ -333,7 +371,7 @@ def hydTail (head : String) (htmlS : Hydrate.Str) (a b : View) (cls? : Option St
         else match cls? with
           | some c => s!"fail {c}"
           | none => "fail unexplained"
-      s!"{head} tree={orDash (encH ts)} hyd=ok created={o.created} after={orDash (encD after)} csr={orDash (encD csr)} ## {cls}"
+      s!"{head} tree={orDash (encH ts)} hyd=ok created={created} after={orDash (encD after)} csr={orDash (encD csr)} ## {cls}"
 
 def opHyd (a b : View) : String :=
   let htmlS := toHtml a
@@ -441,19 +479,20 @@ def step (_ : Unit) (line : String) : Unit × String :=
     | ["case", n] => s!"case {n}"
     | ["hyd", a, b] =>
       match decodeTop 0 a, decodeTop 1 b with
-      | some a, some b => if (fidsOf a ++ fidsOf b).isEmpty then opHyd a b else "bad-op"
+      | some a, some b => if (fidsOf a ++ fidsOf b).isEmpty && boundaries a + boundaries b == 0 then opHyd a b else "bad-op"
       | _, _ => "bad-op"
     | ["shyd", mode, d0, steps, a, b] =>
       let stepsL : Option (List (List Nat)) := if steps == "-" then some [] else (steps.splitOn "/").mapM fidsField
       match fidsField d0, stepsL, decodeTop 0 a, decodeTop 1 b with
       | some d0, some st, some a, some b =>
-        if st.length > 8 || !["io", "ooo", "res", "sync"].contains mode then "bad-op" else opShyd mode d0 st a b
+        if st.length > 8 || !["io", "ooo", "res", "sync"].contains mode
+            || ((mode == "res" || mode == "sync") && boundaries a != 0) then "bad-op" else opShyd mode d0 st a b
       | _, _, _, _ => "bad-op"
     | ["frag", tag, p, ia, ib, q] =>
       match decodeSeq 0 p, decodeSeq 0 ia, decodeSeq 1 ib, decodeSeq 0 q, decodeSeq 1 p, decodeSeq 1 q with
       | some p, some ia, some ib, some q, some pB, some qB =>
         if (p ++ ia ++ q).length > 5 || tag.isEmpty || !tag.toList.all tagCharOK
-            || !(fidsOfL (p ++ ia ++ ib ++ q)).isEmpty then "bad-op"
+            || !(fidsOfL (p ++ ia ++ ib ++ q)).isEmpty || boundariesL (p ++ ia ++ ib ++ q) != 0 then "bad-op"
         else opFrag tag p ia ib q pB qB
       | _, _, _, _, _, _ => "bad-op"
     | ["sfrag", mode, d0, steps, tag, p, ia, ib, q] =>
@@ -461,12 +500,12 @@ def step (_ : Unit) (line : String) : Unit × String :=
       match fidsField d0, stepsL, decodeSeq 0 p, decodeSeq 0 ia, decodeSeq 1 ib, decodeSeq 0 q, decodeSeq 1 p, decodeSeq 1 q with
       | some d0, some st, some p, some ia, some ib, some q, some pB, some qB =>
         if st.length > 8 || !["io", "ooo", "res", "sync"].contains mode || (p ++ ia ++ q).length > 5 || tag.isEmpty
-            || !tag.toList.all tagCharOK || !(fidsOfL (p ++ q)).isEmpty then "bad-op"
+            || !tag.toList.all tagCharOK || !(fidsOfL (p ++ q)).isEmpty || boundariesL (p ++ ia ++ ib ++ q) != 0 then "bad-op"
         else opSfrag mode d0 st tag p ia ib q pB qB
       | _, _, _, _, _, _, _, _ => "bad-op"
     | ["mis", a, c] =>
       match decodeTop 0 a, decodeTop 0 c with
-      | some a, some c => if (fidsOf a ++ fidsOf c).isEmpty then opMis a c else "bad-op"
+      | some a, some c => if (fidsOf a ++ fidsOf c).isEmpty && boundaries a + boundaries c == 0 then opMis a c else "bad-op"
       | _, _ => "bad-op"
     | _ => "bad-op"
   ((), out)
